@@ -404,6 +404,56 @@ def run(ctx):
                   "path_param must split the matched parameter on '/' and percent-decode each segment (the inverse of push_path_parameter)", instance="path_param: split('/') . percent_decode_str")
     else:
         ctx.violation("R7.5", "conjure_http", "anchor|path_param", "path_param not found")
+    # R7.9 the same pairing decided on values: path_param evaluated (decision-table interpreter; strings and iterators concrete) on
+    # matched path texts — the decoder must be handed exactly one percent-decoded text per '/'-separated segment, in order, empty
+    # segments included (an empty string and the empty elements of a multi-segment parameter are legitimate values)
+    if len(pp) == 1:
+        from .. import minterp as _mi
+        from urllib.parse import unquote as _unq
+        pb_ = pp[0]
+        pidx = [k for k in range(1, pb_.argc + 1) if tystr(strip_refs(pb_.local_ty(k))) == "str"]
+        probes = ["a", "a/b", "", "a//b", "a/", "/a", "a%2Fb/c", "%41%20b", "x/%2F/y", "//"]
+        bad, unsup, rows = [], None, 0
+        for raw in probes:
+            seen_ = {}
+
+            def oracle(f, argv, raw=raw, seen_=seen_):
+                nm, dd = f.get("name"), f.get("def", "")
+                if nm == "get" and "Extensions" in dd:
+                    return _mi.adt("core::option::Option", 1, [("sym", "path-params")])
+                if nm in ("index", "get") and argv and argv[0] == ("sym", "path-params"):
+                    return raw if nm == "index" else _mi.adt("core::option::Option", 1, [raw])
+                if nm in ("expect", "unwrap") and argv and _mi.is_adt(argv[0]) and argv[0][2] == 1:
+                    return argv[0][3][0]
+                if dd.startswith("percent_encoding::percent_decode_str") and argv and isinstance(argv[0], str):
+                    return ("pd", argv[0])
+                if nm in ("decode_utf8_lossy", "decode_utf8") and argv and isinstance(argv[0], tuple) and argv[0] and argv[0][0] == "pd":
+                    v_ = _unq(argv[0][1])
+                    return v_ if nm == "decode_utf8_lossy" else _mi.adt("core::result::Result", 0, [v_])
+                if nm == "decode" and (f.get("trait") or "").endswith("DecodeParam") and len(argv) == 2:
+                    a_ = argv[1]
+                    items_ = list(a_[1].items) if _mi.is_it(a_) else (list(a_[1]) if isinstance(a_, tuple) and a_ and a_[0] == "array" else None)
+                    seen_["items"] = items_
+                    return _mi.adt("core::result::Result", 0, [("sym", "value")])
+                return _mi.NO_VALUE
+            I_ = _mi.Interp(F, c, inline=lambda d_, rid: rid.startswith("conjure_http::private::server::"), max_depth=4)
+            I_.call_oracle = oracle
+            args_ = [("sym", f"a{k}") for k in range(1, pb_.argc + 1)]
+            if pidx:
+                args_[pidx[0] - 1] = "name"
+            try:
+                I_.run(pb_, args_)
+            except _mi.Unsupported as e_:
+                unsup = str(e_)
+                break
+            rows += 1
+            want = [_unq(x_) for x_ in raw.split("/")]
+            if seen_.get("items") != want:
+                bad.append(f"matched text {raw!r}: the decoder is given {seen_.get('items')!r}, must be given {want!r}")
+        if unsup is not None:
+            ctx.note(f"R7.9 path_param is not evaluable on concrete texts ({unsup}); decided structurally by R7.5")
+        else:
+            ctx.check(not bad, "R7.9", pb_.loc(), "path_param|values", "path_param: " + "; ".join(bad[:3]), instance=f"path_param: {rows} matched texts -> one decoded text per segment, in order, empty ones included")
     pq = [b for b in c.bodies if b.name == "parse_query_params" and b.id.startswith("conjure_http::private::server::")]
     if len(pq) == 1:
         epq_ = inline.expand(c, pq[0], depth=2, pred=lambda cb: cb.id.startswith("conjure_http::private::server::") and cb.kind == "fn")
